@@ -14,6 +14,7 @@ mod fs;
 mod ring;
 mod sock;
 mod sys;
+mod tcount;
 mod teardown;
 
 use proptest::prelude::*;
@@ -193,6 +194,7 @@ pub fn run(ctx: &Ctx) {
     fs::remove_case_root(ctx);
     // (1) teardown
     teardown::run(ctx);
+    tcount::run(ctx);
 
     // (2) one scenario per constructor, same case type and sub-check name as the generated ones
     if !ctx.is_replay() {
